@@ -664,6 +664,23 @@ func (t *protoTrace) exec(c *Ctx, line string) (string, string) {
 			}
 		}
 		heads := t.heads()
+		wasActive := t.clientActive(ci)
+		holdsRemoved := false
+		// the client made the server store a checkpoint beyond the document's head (a crafted push-only sync is
+		// answered with the request's own serverSeq): every later write of that client to the document – the
+		// presence clear of the server-side detach included – is refused with ErrInvalidServerSeq. Self-inflicted;
+		// counted and proved as a witness (Props/C11 deactivate_blocked_by_crafted_checkpoint_witness), not reported.
+		craftedCp := false
+		for _, di := range open {
+			holdsRemoved = holdsRemoved || t.removed[di]
+			if ci >= 0 && ci < len(t.cids) {
+				if info, e := t.s.db.FindClientInfoByRefKey(ctx, types.ClientRefKey{ProjectID: t.s.proj[t.proj].ID, ClientID: types.ID(t.cids[ci])}); e == nil {
+					if d := info.Documents[t.docs[di]]; d != nil && d.ServerSeq > t.head(di) {
+						craftedCp = true
+					}
+				}
+			}
+		}
 		_, err := t.s.cli.DeactivateClient(ctx, protoReq(t, &api.DeactivateClientRequest{
 			ClientId: t.clientHex(toks[1]), Synchronous: true}))
 		var first, rest []string
@@ -693,6 +710,15 @@ func (t *protoTrace) exec(c *Ctx, line string) (string, string) {
 		}
 		t.last = r
 		t.afterRequest(c, "DEACT", ci, -1, heads, nil, r, nil, toks)
+		if wasActive && holdsRemoved {
+			c.Count("proto:deact-holding-removed-document")
+		}
+		if err != nil && wasActive && craftedCp && r.err == "invalidServerSeq" {
+			c.Count("proto:deact-blocked-by-own-crafted-checkpoint")
+		} else if err != nil && wasActive {
+			// C11: deactivating an activated client takes effect – whatever its documents went through
+			o11(c, "DEACT of the activated client c%d failed with %s (it holds %d documents; one of them removed by now: %v)", ci, r.err, len(open), holdsRemoved)
+		}
 		if err == nil {
 			// C11 oracle: a deactivated client holds no document and no vv row
 			for di := range t.docs {
